@@ -6,6 +6,12 @@ Worker process of the C04 multi-process schedule workload.
 Keeps ONE long-lived Collection handle, runs its sessions with seeded random delays and logs one JSON line per
 session: interval (CLOCK_MONOTONIC ns, taken inside the session, i.e. while the lock is held), keys written,
 keys seen, and every value it found wrong.
+
+spec["readonly"]: the handle is opened the way most readers open a library (readonly=True, the default of
+MoleculeLibrary(path)); such a worker only runs reading sessions.  spec["wait_exists"]: the worker does not take part in
+the creation of the library (a read-only handle and a handle reached through a symbolic link to the file need an existing
+file): it waits until the file is there.  Delays sit in front of every step between lock acquisition and release:
+update_keys, flush, end_write / end_read (the file is closed there: buffered bytes reach the file in that step).
 """
 from __future__ import annotations
 
@@ -48,10 +54,23 @@ def main():
 
     log = open(spec["log"], "a", buffering=1)
     payload = spec.get("payload", "bytes")
+    readonly = bool(spec.get("readonly"))
+    if spec.get("wait_exists"):
+        # only shapes the schedule (who creates the library); decides nothing
+        t0 = time.monotonic()
+        while not os.path.exists(spec["path"]):
+            if time.monotonic() - t0 > spec.get("wait_limit", 120):
+                log.write(json.dumps({"harness": "the library did not appear while this worker waited for it"}) + "\n")
+                log.close()
+                return
+            time.sleep(0.002)
     if payload == "mlib":
         import molli as ml
 
-        col = ml.MoleculeLibrary(spec["path"], readonly=False, bufsize=spec["bufsize"])
+        if readonly:
+            col = ml.MoleculeLibrary(spec["path"])
+        else:
+            col = ml.MoleculeLibrary(spec["path"], readonly=False, bufsize=spec["bufsize"])
         base = ml.Molecule.load_mol2(ml.files.dendrobine_mol2)
 
         def enc(key):
@@ -63,12 +82,16 @@ def main():
             return val.name == key and val.attrib.get("tag") == hashlib.sha256(key.encode()).hexdigest() \
                 and val.n_atoms == base.n_atoms
     else:
-        col = Collection(spec["path"], UkvCollectionBackend, readonly=False, bufsize=spec["bufsize"])
+        if readonly:
+            col = Collection(spec["path"], UkvCollectionBackend)
+        else:
+            col = Collection(spec["path"], UkvCollectionBackend, readonly=False, bufsize=spec["bufsize"])
         enc = value_of
 
         def ok(key, val):
             return val == value_of(key)
 
+    end_delayed = [False]
     # delays between lock acquisition and index refresh (inside the with statement, before the body)
     be = col._backend if hasattr(col, "_backend") else None
     if be is not None and spec.get("delay_hooks", True):
@@ -90,6 +113,20 @@ def main():
             return orig_flush()
 
         be.flush = slow_flush
+        # ... and before the file is closed (end_write / end_read): what the stream still buffers reaches the file in that
+        # step, so it has to happen while the lock is held; a longer delay, because the processes waiting for the lock
+        # poll it every 10..100 ms
+        for name in ("end_write", "end_read"):
+            if not callable(getattr(be, name, None)):
+                continue
+
+            def slow_end(__orig=getattr(be, name)):
+                if rng.random() < spec.get("p_end_delay", 0.5):
+                    end_delayed[0] = True
+                    time.sleep(rng.random() * spec.get("end_delay", spec["max_sleep"]))
+                return __orig()
+
+            setattr(be, name, slow_end)
 
     def nap(p=0.5):
         if rng.random() < p:
@@ -99,8 +136,11 @@ def main():
     counter = 0
     for s in range(spec["sessions"]):
         nap(0.7)
-        writing = rng.random() < spec["p_write"]
+        writing = rng.random() < spec["p_write"] and not readonly
         rec = {"w": wid, "s": s, "kind": "w" if writing else "r", "bad": [], "completed": False}
+        if readonly:
+            rec["ro"] = True
+        end_delayed[0] = False
         try:
             if writing:
                 with col.writing():
@@ -116,8 +156,9 @@ def main():
                         wrote.append(key)
                         rec["attempted"] = list(wrote)
                     nap(0.3)
-                    # read something back while still holding the lock
-                    for key in rng.sample(seen, min(2, len(seen))):
+                    # read something back while still holding the lock (not always: a read moves the stream and so
+                    # empties its write buffer; sessions that only store keep the last bytes buffered until the close)
+                    for key in rng.sample(seen, min(2, len(seen))) if rng.random() < 0.6 else ():
                         try:
                             if not ok(key, col[key]):
                                 rec["bad"].append(["wrong-value", key])
@@ -147,6 +188,8 @@ def main():
         if len(rec.get("seen", ())) < last_seen:
             rec["bad"].append(["key-count-decreased", f"{last_seen}->{len(rec.get('seen', ()))}"])
         last_seen = max(last_seen, len(rec.get("seen", ())))
+        if end_delayed[0]:
+            rec["end_delayed"] = True
         log.write(json.dumps(rec) + "\n")
     log.close()
 
